@@ -281,7 +281,7 @@ func resultNames(sig *types.Signature) []string {
 func (in *inst) applyContract(n *vnode, st *State, ct *Contract, callee string, pkg *types.Package, env map[string]Val, sig *types.Signature, pos token.Pos) []Val {
 	fv := in.fv
 	fv.usedContracts[callee] = true
-	ce := &cenv{fv: fv, vars: env, st: st, pkg: pkg, allocOld: st.alloc, where: callee}
+	ce := &cenv{fv: fv, vars: env, st: st, old: st.clone(), pkg: pkg, allocOld: st.alloc, where: callee}
 	for _, l := range ct.Lets {
 		ce.vars[l[0]] = ce.eval(l[1])
 	}
